@@ -124,6 +124,10 @@ def judge(evs, violations, stats):
                 stats['fusion_align_crash'] += 1
                 violations.append({'what': 'callVariant aborts while fitting the fusion graph into codons (IndexError in align_variants): nothing is emitted',
                                    'replay_obj': CK.replay_obj(ev, 'crash'), 'no_input': False, 'finding': CK.F_FUSALIGN})
+            elif CK.is_nola_crash(ev):
+                stats['nola_crash'] += 1
+                violations.append({'what': 'callVariant aborts in create_cleavage_graph (IndexError in move_downstreams, rule %s): nothing is emitted' % ev.run['rule'],
+                                   'replay_obj': CK.replay_obj(ev, 'crash'), 'no_input': False, 'finding': CK.F_NOLACRASH})
             elif CK.is_fusion_crash(ev):
                 stats['fusion_crash'] += 1
                 violations.append({'what': 'callVariant aborts while building the fusion graph (ValueError in expand_alignments): nothing is emitted',
